@@ -11,6 +11,7 @@ Record ecase := {
   ec_reqs : list (tid * request);    (* the concurrent requests *)
   ec_allow_fail : bool; ec_allow_crash : bool; ec_max_crashes : nat;
   ec_allow_cancel : bool; ec_max_cancels : nat;   (* the scheduler may cancel a request's context, at most so often *)
+  ec_allow_close : bool;            (* the scheduler may shut the commander down gracefully (Close), once *)
   ec_allow_read_fail : bool; ec_max_read_fails : nat;   (* ... may make the next store read of a request fail *)
   ec_meta_readers : list tid;        (* the requests whose script reads account metadata (ResolveResources reads the store) *)
   ec_steps : list (action * nat);    (* each choice with the number of choices the harness had *)
@@ -73,7 +74,7 @@ Definition can_read_fail (c : ecase) (s : state) (p : tid * thread) : bool :=
   | Some _ => if reads_metadata_next (snd p) then existsb (Nat.eqb (fst p)) (ec_meta_readers c) else true
   | None => false
   end.
-Definition count_choices (c : ecase) (crashes cancels rfails : nat) (s : state) : nat :=
+Definition count_choices (c : ecase) (crashes cancels rfails closes : nat) (s : state) : nat :=
   let unstarted := length (filter (fun r => match get_thread (threads s) (fst r) with None => true | Some _ => false end) (ec_reqs c)) in
   let resumable := length (filter (fun p => live s p && can_resume s (fst p)) (threads s)) in
   (* one cancel choice per running request whose context is not cancelled yet *)
@@ -84,25 +85,29 @@ Definition count_choices (c : ecase) (crashes cancels rfails : nat) (s : state) 
   let can_crash := Nat.ltb crashes (ec_max_crashes c) in
   let worker := match v_batch s with Some _ => (1 + (if ec_allow_fail c && can_crash then 1 else 0))%nat | None => O end in
   let alive := existsb (live s) (threads s) || match v_batch s with Some _ => true | None => false end in
-  (unstarted + resumable + cancellable + read_failable + worker + (if ec_allow_crash c && can_crash && alive then 1 else 0))%nat.
+  (* close: with a batch inside the store call the choice includes the outcome of that write (close_ok / close_fail) *)
+  let closable := if ec_allow_close c && Nat.eqb closes 0 && alive
+                  then match v_batch s with Some _ => 2%nat | None => 1%nat end else O in
+  (unstarted + resumable + cancellable + read_failable + worker + (if ec_allow_crash c && can_crash && alive then 1 else 0) + closable)%nat.
 
-Fixpoint replay (c : ecase) (crashes cancels rfails : nat) (s : state) (steps : list (action * nat)) : option state :=
+Fixpoint replay (c : ecase) (crashes cancels rfails closes : nat) (s : state) (steps : list (action * nat)) : option state :=
   match steps with
-  | [] => if Nat.eqb (count_choices c crashes cancels rfails s) (ec_final_choices c) then Some s else None
+  | [] => if Nat.eqb (count_choices c crashes cancels rfails closes s) (ec_final_choices c) then Some s else None
   | (a, n) :: r =>
-      if negb (Nat.eqb (count_choices c crashes cancels rfails s) n) then None
+      if negb (Nat.eqb (count_choices c crashes cancels rfails closes s) n) then None
       else match step s a with
            | None => None
            | Some s' => replay c (match a with ACrash | APersistFail => S crashes | _ => crashes end)
                                  (match a with ACancel _ => S cancels | _ => cancels end)
-                                 (match a with AResumeReadFail _ => S rfails | _ => rfails end) s' r
+                                 (match a with AResumeReadFail _ => S rfails | _ => rfails end)
+                                 (match a with AClose | ACloseOk => S closes | _ => closes end) s' r
            end
   end.
 
 Definition final_state (c : ecase) : option state :=
   match run init (ec_setup c) with
   | None => None
-  | Some s0 => replay c 0 0 0 (crash s0) (ec_steps c)
+  | Some s0 => replay c 0 0 0 0 (crash s0) (ec_steps c)
   end.
 
 Definition check_case (c : ecase) : bool :=
@@ -119,16 +124,17 @@ Definition check_case (c : ecase) : bool :=
   end.
 
 (* where a replay stops: index of the first step the model refuses (or whose choice count differs) *)
-Fixpoint first_refused (c : ecase) (crashes cancels rfails : nat) (s : state) (steps : list (action * nat)) (i : nat) : nat :=
+Fixpoint first_refused (c : ecase) (crashes cancels rfails closes : nat) (s : state) (steps : list (action * nat)) (i : nat) : nat :=
   match steps with
-  | [] => if Nat.eqb (count_choices c crashes cancels rfails s) (ec_final_choices c) then 999 else 998
+  | [] => if Nat.eqb (count_choices c crashes cancels rfails closes s) (ec_final_choices c) then 999 else 998
   | (a, n) :: r =>
-      if negb (Nat.eqb (count_choices c crashes cancels rfails s) n) then (500 + i)%nat
+      if negb (Nat.eqb (count_choices c crashes cancels rfails closes s) n) then (500 + i)%nat
       else match step s a with
            | None => i
            | Some s' => first_refused c (match a with ACrash | APersistFail => S crashes | _ => crashes end)
                                         (match a with ACancel _ => S cancels | _ => cancels end)
-                                        (match a with AResumeReadFail _ => S rfails | _ => rfails end) s' r (S i)
+                                        (match a with AResumeReadFail _ => S rfails | _ => rfails end)
+                                 (match a with AClose | ACloseOk => S closes | _ => closes end) s' r (S i)
            end
   end.
 
